@@ -30,6 +30,28 @@ def _effects(res):
     return [e for e in res['trace'] if e[0] not in life_gen.MARKERS]
 
 
+LISTENER_CONF = dict(startsecs=0, startretries=3, stopwaitsecs=1, stopsignal=15, priority=999, autostart=1, autorestart=2,
+                     exitcodes=[0], stopasgroup=0, killasgroup=0, cmd=0)
+
+
+def with_listeners(script):
+    """The script seen by the per-process monitors with the listener processes of its pools appended as ordinary
+    processes (harness/life_driver.py gives them the indices len(procs)..; their configuration is fixed there)."""
+    if not script.get('pools'):
+        return script
+    ext = dict(script)
+    procs = list(script['procs'])
+    for k, pl in enumerate(script['pools']):
+        for _ in range(pl.get('procs', 1)):
+            c = dict(LISTENER_CONF)
+            c['group'] = len(script['groups']) + k
+            procs.append(c)
+    ext['procs'] = procs
+    ext['groups'] = list(script['groups']) + [{'priority': pl.get('priority', 1), 'procs': []} for pl in script['pools']]
+    ext['pools'] = []
+    return ext
+
+
 def mon_c01(script, res):
     n = len(script['procs']) + sum(p.get('procs', 1) for p in script.get('pools', []))
     cur = [0] * n
@@ -768,6 +790,42 @@ def poller_stream(chk, wd):
     return len(cases), hits + len(bad)
 
 
+def pool_script(rng):
+    """An ordinary random history plus an event-listener pool of 2-3 listeners whose processes are started, stopped,
+    signalled and killed like any other process (outside the Coq model: judged by the monitors over the extended
+    process list, see with_listeners)."""
+    s = life_gen.random_script(rng, nprocs=rng.choice([1, 1, 2]), hostile=0.1, shutdown=0.15, rpcw=0.35)
+    nl = rng.choice([2, 2, 3])
+    s['pools'] = [{'events': rng.choice([['EVENT'], ['PROCESS_STATE'], ['TICK_5']]), 'buffer': 10, 'procs': nl,
+                   'priority': rng.choice([1, 5, 999])}]
+    n = len(s['procs'])
+    for op in s['ops']:
+        for a in op['acts']:
+            if a[0] == 'rpc' and a[2] in ('start', 'stop', 'signal') and len(a) <= 6 and rng.random() < 0.5:
+                a[3] = n + rng.randrange(nl)
+    return s
+
+
+def pool_stream(chk):
+    n = 600 if chk.tier == 'quick' else 8000
+    hits = 0
+    mons = (mon_c06, mon_c01, mon_c02, mon_c03, mon_c04, mon_c05, mon_c13)
+    for k in range(n):
+        s = pool_script(chk.rng)
+        pend_exit.clear(); prev_state.clear(); ever_started_before.clear(); pend_es.clear()
+        r = life_driver.run_script(s)
+        chk.dist('pool:' + str(r['ended']))
+        ext = with_listeners(s)
+        for m in mons:
+            msg = m(ext if m not in (mon_c01, mon_c05) else s, r)
+            if msg:
+                hits += 1
+                if hits <= 5:
+                    chk.violation({'kind': 'listener-pool history: property monitor rejects the implementation trace',
+                                   'monitor': m.__name__, 'message': msg, 'script': s, 'implementation': jsonable_result(r)})
+    return n, hits
+
+
 def dynamic_script(rng, U=2):
     """Groups added by RPC at run time, then a shutdown/restart: outside the Coq model (static group set), judged by
     the monitors only (C05 order, exit condition, no fork after the request)."""
@@ -1007,6 +1065,10 @@ def _run(chk, which, prop_rel, proved, wd):
         monitor_hits += hp
     if which in ('C03', 'C04'):
         nh += config_tie(chk, wd)
+    if which in ('C03', 'C04', 'C02', 'C13'):
+        npl, hpl = pool_stream(chk)
+        nh += npl
+        monitor_hits += hpl
     if which in ('C05', 'C02'):
         nd, hd = dynamic_stream(chk)
         nh += nd
